@@ -956,6 +956,47 @@ func (x *c03) nonEmpty(f *ssa.Function, at ssa.Instruction, v ssa.Value, depth i
 				}
 			}
 		}
+		// result of a lookup helper that also returns "found": on the edge where that flag is true, and every return
+		// of the helper that can report true carries a non-empty slice
+		if call, ok := y.Tuple.(*ssa.Call); ok {
+			if g := flow.StaticCallee(call); g != nil && g.Blocks != nil && x.c.P.IsLibrary(g) {
+				for _, gd := range flow.Guards(at) {
+					cond, neg := flow.Cond(gd.If.Cond, gd.Taken)
+					fl, isEx := cond.(*ssa.Extract)
+					if !isEx || neg || fl.Tuple != y.Tuple || fl.Index == y.Index {
+						continue
+					}
+					if bt, isB := fl.Type().Underlying().(*types.Basic); !isB || bt.Info()&types.IsBoolean == 0 {
+						continue
+					}
+					okAll, n := true, 0
+					flow.Instrs(g, func(in ssa.Instruction) {
+						ret, isRet := in.(*ssa.Return)
+						if !isRet || len(ret.Results) <= fl.Index || len(ret.Results) <= y.Index || ret.Block() == g.Recover {
+							return
+						}
+						if k, isK := ret.Results[fl.Index].(*ssa.Const); isK && k.Value != nil && k.Value.String() == "false" {
+							return
+						}
+						n++
+						// the flag may itself be the hit of the map the slice was taken from: (v, ok := idx[k])
+						if fe, isFE := ret.Results[fl.Index].(*ssa.Extract); isFE && fe.Index == 1 {
+							if ve, isVE := ret.Results[y.Index].(*ssa.Extract); isVE && ve.Index == 0 && ve.Tuple == fe.Tuple {
+								if lk, isLk := fe.Tuple.(*ssa.Lookup); isLk && lk.CommaOk && x.mapValuesAppended(lk.X) {
+									return
+								}
+							}
+						}
+						if x.nonEmpty(g, ret, ret.Results[y.Index], depth+1) == "" {
+							okAll = false
+						}
+					})
+					if okAll && n > 0 {
+						return "result of " + g.Name() + " on the edge where its found-flag is true; every return of " + g.Name() + " that can report true carries a non-empty slice"
+					}
+				}
+			}
+		}
 		// comma-ok map hit of an index whose values are only ever append() results
 		if lk, ok := y.Tuple.(*ssa.Lookup); ok && lk.CommaOk && y.Index == 0 {
 			for _, gd := range flow.Guards(at) {
@@ -1057,6 +1098,24 @@ func (x *c03) sliceNonEmptyAt(at ssa.Instruction, v ssa.Value, depth int) bool {
 		}
 	}
 	switch y := v.(type) {
+	case *ssa.Slice:
+		// a slice literal with at least one element: []T{x}
+		if al, ok := y.X.(*ssa.Alloc); ok && y.Low == nil && y.High == nil {
+			if arr, ok := al.Type().(*types.Pointer).Elem().Underlying().(*types.Array); ok && arr.Len() >= 1 {
+				return true
+			}
+		}
+	case *ssa.Extract:
+		// the result of a recursive call of the same function on its nil-error edge (coinduction)
+		if rc, ok := y.Tuple.(*ssa.Call); ok && y.Index == 0 && flow.StaticCallee(rc) == at.Parent() {
+			e := errorResult(rc)
+			for _, gd := range flow.Guards(at) {
+				rl, ok := condRel(gd.If.Cond, gd.Taken)
+				if ok && rl.op == token.EQL && ((rl.a == e && flow.IsNilConst(rl.b)) || (rl.b == e && flow.IsNilConst(rl.a))) {
+					return true
+				}
+			}
+		}
 	case *ssa.Call:
 		if b, ok := y.Call.Value.(*ssa.Builtin); ok && b.Name() == "append" && len(y.Call.Args) == 2 {
 			// variadic slice of a fixed array with >= 1 element, or a non-empty slice
